@@ -92,7 +92,15 @@ prop('C06', 'periodic tessellation equals that of the infinitely replicated poin
   ('cell_translates', 'MVoro.Proofs.VorSet', 'MVoro.VorSet', 'Vor_translate', 'T06.3 translating all sites translates every Voronoi region (any index set, e.g. all periodic images): measures are unchanged'),
   ('face_translates', 'MVoro.Proofs.VorSet', 'MVoro.VorSet', 'face_translate', 'T06.3 and every face'),
 ])
-prop('C08', '1D and 2D tessellations depend only on the active coordinates', ['MVoro.Proofs.Periodic', 'MVoro.Proofs.VorSet'], [
+LD = ('MVoro.Proofs.LowDim', 'MVoro.LowDim')
+def ld(name, orig, doc): return (name, LD[0], LD[1], orig, doc)
+prop('C08', '1D and 2D tessellations depend only on the active coordinates', ['MVoro.Proofs.Periodic', 'MVoro.Proofs.VorSet', 'MVoro.Proofs.LowDim'], [
+  ld('generator_projection_indep', 'projectGen_indep', 'T08.1 `Generator::new` forgets the unused coordinates'),
+  ld('axis_normalisation_indep', 'normalise_indep', 'T08.1 the axis normalisation forgets the unused components of anchor and width'),
+  ld('internal_problem_indep_of_unused_coordinates', 'norm_indep', 'T08.1 two inputs that agree on the active coordinates are normalised to the same internal problem; every later step is a function of it'),
+  ld('unit_box_on_unused_axes_1d', 'norm_unused_1d', 'T08.1 1D: unused axes carry the box [-1/2,1/2] and generator coordinate 0'),
+  ld('unit_box_on_unused_axes_2d', 'norm_unused_2d', 'T08.1 2D: same for z'),
+  ('half_space_depends_on_projection', 'MVoro.Proofs.VorSet', 'MVoro.VorSet', 'HS_proj', 'T08.3 prism: for generators inside a subspace K, membership of x in H(g,q) depends only on the orthogonal projection of x onto K: the 3D cell is base x (unused axes)'),
   pe('cell_1d_closed_form', 'cell_1d_eq', 'T08.2 the 1D cell is the interval between the midpoints to the sorted neighbours (walls at the ends)'),
   pe('unit_thickness', 'prism_volume', 'T02.3/T08 unit thickness: the measure of the prism is the measure of its base'),
   pe('slab_centroid', 'slab_centroid', 'T08 the centroid of the unit slab is 0 along unused axes'),
